@@ -22,6 +22,7 @@ mod c10;
 mod c09;
 mod c14;
 mod c08;
+mod c18;
 
 pub use util::*;
 
@@ -52,6 +53,7 @@ fn props() -> Vec<Prop> {
         Prop { id: "C09", run: c09::run, gen: c09::gen },
         Prop { id: "C14", run: c14::run, gen: c14::gen },
         Prop { id: "C08", run: c08::run, gen: c08::gen },
+        Prop { id: "C18", run: c18::run, gen: c18::gen },
     ]
 }
 
